@@ -1,17 +1,18 @@
 #!/bin/bash
-# usage: reseed.sh <PROP> [N ...]    re-run the owning quick check against the stored seeded changes of a property
-# (applies /verif/seeded/<PROP>-<N>/patch.diff to /repo, runs ./check <PROP>, reverts).  Prints caught / MISSED.
+# usage: reseed.sh <PROP> [N ...]    re-run the owning quick check against stored seeded changes of a property, each in a
+# scratch worktree (VERIF_REPO) - /repo itself is never touched.  Prints caught / MISSED and refreshes result.txt.
 P=$1; shift
 NS=${@:-$(ls -d /verif/seeded/$P-* | sed "s/.*-//" | sort -n)}
-cd /repo && git status --porcelain | grep -q . && { echo "/repo dirty"; exit 2; }
-mkdir -p /tmp/reseed
+mkdir -p /tmp/rs
 for N in $NS; do
-  D=/verif/seeded/$P-$N
-  git -C /repo apply $D/patch.diff 2>/dev/null || git -C /repo apply --3way $D/patch.diff || { echo "$P-$N patch does not apply"; continue; }
-  (cd /verif && timeout 1800 ./check $P --tier quick > /tmp/reseed/$P.$N.out 2>&1); rc=$?
-  v=$(grep -c '^VIOLATION' /tmp/reseed/$P.$N.out)
-  git -C /repo restore --source=HEAD --staged --worktree .
-  echo " $P:rc=$rc:violations=$v" > $D/result.txt
-  if [ $rc = 1 ] && [ $v -gt 0 ]; then echo "$P-$N caught (violations=$v)"; else echo "$P-$N MISSED rc=$rc"; tail -3 /tmp/reseed/$P.$N.out | cut -c1-300; fi
+  D=/verif/seeded/$P-$N; W=/tmp/rs/one-$P-$N
+  rm -rf $W; git -C /repo worktree add -q --detach $W HEAD 2>/dev/null || { echo "$P-$N: worktree failed"; continue; }
+  if git -C $W apply $D/patch.diff 2>/dev/null || git -C $W apply --3way $D/patch.diff 2>/dev/null; then
+    (cd /verif && VERIF_REPO=$W timeout 2400 ./check $P --tier quick > /tmp/rs/$P-$N.out 2>&1); rc=$?
+    v=$(grep -c '^VIOLATION' /tmp/rs/$P-$N.out)
+    echo " $P:rc=$rc:violations=$v" > $D/result.txt
+    if [ $rc = 1 ] && [ $v -gt 0 ]; then echo "$P-$N caught (violations=$v)"; else echo "$P-$N MISSED rc=$rc"; tail -2 /tmp/rs/$P-$N.out | cut -c1-300; fi
+  else echo "$P-$N: patch does not apply"; fi
+  git -C /repo worktree remove --force $W 2>/dev/null
 done
-rm -rf /verif/replays/$P
+git -C /repo worktree prune
